@@ -8,14 +8,23 @@ package vrt
 import (
 	"fmt"
 	"hash/fnv"
+	"os"
 	"reflect"
 	"unsafe"
 )
 
-const (
+// ArbMaxSlice / ArbMaxDepth: bounds of arbitrary operands (quick: slices <= 2, pointer depth 3;
+// thorough: slices <= 3, pointer depth 4).
+var (
 	ArbMaxSlice = 2
 	ArbMaxDepth = 3
 )
+
+func init() {
+	if os.Getenv("VERIF_TIER") == "thorough" {
+		ArbMaxSlice, ArbMaxDepth = 3, 4
+	}
+}
 
 // Arbitrary stores an arbitrary value of *ptr's type into *ptr. Calls with the same name yield
 // structurally identical but physically separate values.
